@@ -20,8 +20,10 @@ struct SchedGen {
   Case gen_contended_program(const std::string& mode, Chooser& ch) {
     Case c; static const std::vector<size_t> cls = { 2048, 2048, 1000, 8*KiB, 8*KiB, 16, 300, 20000, 60000, 100*KiB }; size_t n = ch.of(cls); size_t n2 = ch.chance(1, 3) ? ch.of(cls) : n;
     int k = (int)ch.range(3, 12);   /* (classes with 5-8 blocks per page make the owner's later allocations take the generic path, which collects the page's thread-free list) */ auto O = [&](Op op, int t) { op.u("t", (uint64_t)t); c.push_back(op); };
-    for (int s = 0; s < k; s++) O(Op("A").u("s", (uint64_t)s).u("n", (s == k - 1 ? n2 : n)), 0);
+    bool two_pages = ch.chance(1, 2); if (two_pages && n2 == n) n2 = (n == 2048 ? 8*KiB : 2048);   // blocks alternate between two classes: two pages whose first remote frees both go to the heap's delayed list
+    for (int s = 0; s < k; s++) O(Op("A").u("s", (uint64_t)s).u("n", (two_pages ? (s % 2 ? n2 : n) : (s == k - 1 ? n2 : n))), 0);
     std::vector<int> order(k); for (int i = 0; i < k; i++) order[i] = i; for (int i = k - 1; i > 0; i--) std::swap(order[i], order[ch.pick((size_t)i + 1)]);
+    if (two_pages && k >= 2 && (order[0] % 2) == (order[1] % 2)) { for (int i = 2; i < k; i++) if ((order[i] % 2) != (order[0] % 2)) { std::swap(order[1], order[i]); break; } }   // thread 1 and thread 2 start on different pages
     int nf = (int)ch.range(k >= 4 ? 3 : 2, (uint64_t)k); for (int i = 0; i < nf; i++) O(Op("F").u("s", (uint64_t)order[i]), 1 + (i % 2 == 0 ? 0 : 1) * (int)1);   // alternate between thread 1 and 2
     int next = k;
     auto owner_work = [&](int cnt) { for (int i = 0; i < cnt; i++) { unsigned w = (unsigned)ch.pick(5);
@@ -148,7 +150,10 @@ struct SchedGen {
           // two times in three the victim is stopped right after a load that a CAS/RMW/store of the same thread follows within three accesses (the window of a retry loop)
           if (sch.chance(2, 3)) { std::vector<uint64_t> wins; for (int i = 0; i < ai.nseq[A]; i++) if (ai.seq[A][i] == MI_VF_LOAD) for (int j2 = i + 1; j2 <= i + 3 && j2 < ai.nseq[A]; j2++) if (ai.seq[A][j2] != MI_VF_LOAD) { wins.push_back((uint64_t)i + 2); break; }
             if (!wins.empty()) m = wins[sch.pick(wins.size())]; }
-          if (sch.chance(2, 3)) c.push_back(Op("G").u("t", (uint64_t)C).u("a", ai.addr).u("k", sch.range(1, std::min<uint64_t>(ai.cnt[C] + 1, 16))).u("to", (uint64_t)A));
+          if (sch.chance(3, 4)) { uint64_t kc = sch.range(1, std::min<uint64_t>(ai.cnt[C] + 1, 16));
+            // mostly: C is parked right before a load of X that one of its own writes follows (it is about to take over / update the location)
+            if (sch.chance(2, 3)) { std::vector<uint64_t> pk; for (int i = 0; i < ai.nseq[C]; i++) if (ai.seq[C][i] != MI_VF_LOAD) { int st = i; while (st > 0 && ai.seq[C][st-1] == MI_VF_LOAD && i - st < 2) st--; pk.push_back((uint64_t)st + 1); } if (!pk.empty()) kc = pk[sch.pick(pk.size())]; }
+            c.push_back(Op("G").u("t", (uint64_t)C).u("a", ai.addr).u("k", kc).u("to", (uint64_t)A)); }
           c.push_back(Op("G").u("t", (uint64_t)A).u("a", ai.addr).u("k", m).u("to", (uint64_t)B));
           std::string order;
           if (extra > 0) { c.push_back(Op("G").u("t", (uint64_t)A).u("a", ai.addr).u("k", m + extra).u("to", (uint64_t)C)); order = { (char)('0' + A), (char)('0' + B), (char)('0' + C) }; }
